@@ -297,7 +297,9 @@ spif_dlinked_list_item_dup(spif_dlinked_list_item_t self)
 
     ASSERT_RVAL(!SPIF_DLINKED_LIST_ITEM_ISNULL(self), (spif_dlinked_list_item_t) NULL);
     tmp = spif_dlinked_list_item_new();
-    tmp->data = SPIF_OBJ_DUP(self->data);
+    if (!SPIF_OBJ_ISNULL(self->data)) {
+        tmp->data = SPIF_OBJ_DUP(self->data);
+    }
     return tmp;
 }
 
@@ -470,6 +472,9 @@ spif_dlinked_list_dup(spif_dlinked_list_t self)
     ASSERT_RVAL(!SPIF_LIST_ISNULL(self), (spif_dlinked_list_t) NULL);
     tmp = spif_dlinked_list_new();
     memcpy(tmp, self, SPIF_SIZEOF_TYPE(dlinked_list));
+    if (SPIF_DLINKED_LIST_ITEM_ISNULL(self->head)) {
+        return tmp;
+    }
     tmp->head = spif_dlinked_list_item_dup(self->head);
     for (src = self->head, dest = tmp->head, prev = (spif_dlinked_list_item_t) NULL;
          src->next;
@@ -478,7 +483,8 @@ spif_dlinked_list_dup(spif_dlinked_list_t self)
         dest->prev = prev;
     }
     dest->next = (spif_dlinked_list_item_t) NULL;
-    tmp->tail = prev;
+    dest->prev = prev;
+    tmp->tail = dest;
     return tmp;
 }
 
@@ -491,6 +497,9 @@ spif_dlinked_list_vector_dup(spif_dlinked_list_t self)
     ASSERT_RVAL(!SPIF_VECTOR_ISNULL(self), (spif_dlinked_list_t) NULL);
     tmp = spif_dlinked_list_vector_new();
     memcpy(tmp, self, SPIF_SIZEOF_TYPE(dlinked_list));
+    if (SPIF_DLINKED_LIST_ITEM_ISNULL(self->head)) {
+        return tmp;
+    }
     tmp->head = spif_dlinked_list_item_dup(self->head);
     for (src = self->head, dest = tmp->head, prev = (spif_dlinked_list_item_t) NULL;
          src->next;
@@ -499,7 +508,8 @@ spif_dlinked_list_vector_dup(spif_dlinked_list_t self)
         dest->prev = prev;
     }
     dest->next = (spif_dlinked_list_item_t) NULL;
-    tmp->tail = prev;
+    dest->prev = prev;
+    tmp->tail = dest;
     return tmp;
 }
 
@@ -512,6 +522,9 @@ spif_dlinked_list_map_dup(spif_dlinked_list_t self)
     ASSERT_RVAL(!SPIF_MAP_ISNULL(self), (spif_dlinked_list_t) NULL);
     tmp = spif_dlinked_list_map_new();
     memcpy(tmp, self, SPIF_SIZEOF_TYPE(dlinked_list));
+    if (SPIF_DLINKED_LIST_ITEM_ISNULL(self->head)) {
+        return tmp;
+    }
     tmp->head = spif_dlinked_list_item_dup(self->head);
     for (src = self->head, dest = tmp->head, prev = (spif_dlinked_list_item_t) NULL;
          src->next;
@@ -520,7 +533,8 @@ spif_dlinked_list_map_dup(spif_dlinked_list_t self)
         dest->prev = prev;
     }
     dest->next = (spif_dlinked_list_item_t) NULL;
-    tmp->tail = prev;
+    dest->prev = prev;
+    tmp->tail = dest;
     return tmp;
 }
 
